@@ -526,6 +526,13 @@ func importTar(in io.ReaderAt) (*tarFile, error) {
 }
 
 func moveRec(name string, in *tarFile, out *tarFile, picked map[string]struct{}) error {
+	return moveRecAux(name, in, out, picked, false)
+}
+
+// moveRecAux moves the entry and its ancestors and hardlink targets. If implicitOK is true,
+// a directory that has no entry of its own in the tar (implicit parent directory) isn't
+// treated as an error; its ancestors are still moved.
+func moveRecAux(name string, in *tarFile, out *tarFile, picked map[string]struct{}, implicitOK bool) error {
 	name = cleanEntryName(name)
 	if name == "" { // root directory. stop recursion.
 		if e, ok := in.get(name); ok {
@@ -542,12 +549,12 @@ func moveRec(name string, in *tarFile, out *tarFile, picked map[string]struct{})
 	_, okIn := in.get(name)
 	_, okOut := out.get(name)
 	_, okPicked := picked[name]
-	if !okIn && !okOut && !okPicked {
+	if !okIn && !okOut && !okPicked && !implicitOK {
 		return fmt.Errorf("file: %q: %w", name, errNotFound)
 	}
 
 	parent, _ := path.Split(strings.TrimSuffix(name, "/"))
-	if err := moveRec(parent, in, out, picked); err != nil {
+	if err := moveRecAux(parent, in, out, picked, true); err != nil {
 		return err
 	}
 	if e, ok := in.get(name); ok && e.header.Typeflag == tar.TypeLink {
